@@ -184,6 +184,20 @@ def fragmentation(total, style, rng):
     return [rng.choice([1, 2, 3, 5, 8, 13, 39, 40, 41]) for _ in range(200)]
 
 
+def payload_as(payload, k):
+    """the same bytes handed over as bytes, as a bytearray, as a memoryview of bytes, or - where the length allows - as a
+    memoryview of items that are wider than a byte"""
+    import array
+    form = k % 4
+    if form == 1:
+        return bytearray(payload)
+    if form == 2:
+        return memoryview(bytes(payload))
+    if form == 3 and len(payload) % 4 == 0 and payload:
+        return memoryview(array.array("I", bytes(payload)))
+    return bytes(payload)
+
+
 def build(protocol, config, mtype, flags, seq, ser, payload, anns, corr, comp, limit):
     from Pyro5.callcontext import current_context
     saved = current_context.correlation_id
@@ -192,7 +206,7 @@ def build(protocol, config, mtype, flags, seq, ser, payload, anns, corr, comp, l
         current_context.correlation_id = corr
         config.COMPRESSION = comp
         config.MAX_MESSAGE_SIZE = limit
-        return protocol.SendingMessage(mtype, flags, seq, ser, payload, annotations=anns)
+        return protocol.SendingMessage(mtype, flags, seq, ser, payload_as(payload, seq + len(payload)), annotations=anns)
     finally:
         current_context.correlation_id = saved
         config.COMPRESSION, config.MAX_MESSAGE_SIZE = savedc, savedl
